@@ -1062,7 +1062,7 @@ def filtered_comprehension(engine, ctx, e, gen, src: SymSeq, b: Binding, env):
     return seq_from_template(engine, ctx, sub, b2, holder2["v"])
 
 
-def canonical_filter(ctx, src: SymSeq, cond, i0):
+def canonical_filter(ctx, src: SymSeq, cond, i0, strict=False):
     """The order-preserving subsequence of `src` of the elements that satisfy a predicate of the element.
        Canonical: flt!<hash>!arr(src.arr, n), a function of the source (equal filters give equal terms)."""
     import hashlib
@@ -1098,6 +1098,11 @@ def canonical_filter(ctx, src: SymSeq, cond, i0):
                                                sel(farr(S, n), finv(S, n, i)) == sel(S, i))),
                   patterns=[z3.MultiPattern(sel(S, i), farr(S, n)), z3.MultiPattern(sel(S, i), flen(S, n))]),
     ]
+    if strict:
+        # a filter that rejects some element is strictly shorter than its source
+        # (Lean: Pydsdl.filter_length_lt, lean/Pydsdl/Filter.lean = List.length_filter_lt_length_iff_exists)
+        facts.append(z3.ForAll([S, n, i], z3.Implies(z3.And(0 <= i, i < n, z3.Not(P(sel(S, i)))), flen(S, n) < n),
+                               patterns=[z3.MultiPattern(sel(S, i), flen(S, n))]))
     for f in facts:
         ctx.add_axiom(f)
     sub = SymSeq(farr(src.arr, src.length), flen(src.arr, src.length), src.kind, fresh=True)
